@@ -380,16 +380,17 @@ func genSlots(rng *common.Rng, cls int, variant int) []slotDef {
 		j := rng.Intn(i + 1)
 		perm[i], perm[j] = perm[j], perm[i]
 	}
-	used := map[int]bool{} // an initarg is not put on two slots of one form (Go map order would decide)
 	var out []slotDef
 	for i := 0; i < n; i++ {
 		sd := slotDef{Name: perm[i]}
 		na := rng.Intn(3)
+		used := map[int]bool{} // an initarg is not written twice on one slot
 		for a := 0; a < na; a++ {
 			ia := rng.Intn(nSlots)
 			if rng.Chance(55) {
 				ia = sd.Name // the usual :initarg named after the slot (shared with other classes)
 			}
+			// one initarg on two slots of the same form, or of a class and its superclass, fills both (C12-5)
 			if !used[ia] {
 				used[ia] = true
 				sd.Initargs = append(sd.Initargs, ia)
@@ -515,6 +516,9 @@ func Run(ctx *common.Ctx) {
 		var redefForm classForm
 		if rng.Chance(55) {
 			redef = common.Pick(rng, defined)
+			if chainy && rng.Chance(50) {
+				redef = order[0] // the root of a chain: classes two and more levels below must follow (C12-2)
+			}
 			redefForm = classForm{Name: redef, Supers: genSupers(rng, rank, redef, undefined), Slots: genSlots(rng, redef, 1)}
 			switch x := rng.Intn(10); {
 			case x < 3:
@@ -531,6 +535,42 @@ func Run(ctx *common.Ctx) {
 			redefAt = pos + 1 + rng.Intn(len(evalOrder)-pos)
 			if rng.Chance(60) {
 				redefAt = len(evalOrder) // after everything is defined: the usual situation
+			}
+			// a new superclass that is defined only after the redefinition (C12-3): the inheriting classes wait
+			if rng.Chance(30) {
+				var lower []int
+				for _, c := range defined {
+					if rank[c] < rank[redef] {
+						lower = append(lower, c)
+					}
+				}
+				if len(lower) > 0 {
+					later := common.Pick(rng, lower)
+					pr, pl := -1, -1
+					for i, c := range evalOrder {
+						if c == redef {
+							pr = i
+						}
+						if c == later {
+							pl = i
+						}
+					}
+					if pl < pr {
+						evalOrder[pl], evalOrder[pr] = evalOrder[pr], evalOrder[pl]
+						pl, pr = pr, pl
+					}
+					if pl-pr >= 2 || rng.Chance(50) {
+						redefAt = pl // evaluated just before `later` is defined
+						has := false
+						for _, sp := range redefForm.Supers {
+							has = has || sp == later
+						}
+						if !has {
+							redefForm.Supers = append(redefForm.Supers, later)
+						}
+						ctx.Hist("redefinition-with-superclass-defined-later")
+					}
+				}
 			}
 		}
 		hasMethod := map[int]bool{}
@@ -653,9 +693,39 @@ func Run(ctx *common.Ctx) {
 				defMethod(c)
 			}
 		}
+		// around a redefinition: a call of the user generic with an instance of some class (fills the dispatch
+		// cache), the redefinition, the same call with a new instance of the same class (C12-4: defclass drops the caches)
+		probeClass := -1
+		cacheProbeBefore := func() {
+			if rng.Chance(60) && r.bad == "" {
+				probeClass = common.Pick(rng, defined)
+				before := r.ninst
+				r.makeInstance(probeClass, nil)
+				ctx.Hist("make-instance:0-initargs")
+				if r.ninst > before {
+					dispatch(r.ninst - 1)
+					ctx.Hist("cache-probe")
+				} else {
+					probeClass = -1
+				}
+			}
+		}
+		cacheProbeAfter := func() {
+			if probeClass >= 0 && r.bad == "" {
+				before := r.ninst
+				r.makeInstance(probeClass, nil)
+				ctx.Hist("make-instance:0-initargs")
+				if r.ninst > before {
+					dispatch(r.ninst - 1)
+				}
+				probeClass = -1
+			}
+		}
 		for i, c := range evalOrder {
 			if i == redefAt {
+				cacheProbeBefore()
 				r.defclass(redefForm)
+				cacheProbeAfter()
 				randomOps(rng.Intn(4))
 			}
 			r.defclass(forms[c])
@@ -665,7 +735,9 @@ func Run(ctx *common.Ctx) {
 		}
 		randomOps(3 + rng.Intn(6))
 		if redefAt == len(evalOrder) {
+			cacheProbeBefore()
 			r.defclass(redefForm)
+			cacheProbeAfter()
 			randomOps(4 + rng.Intn(6))
 		}
 		shape := fmt.Sprintf("classes:%d", nc)
@@ -706,7 +778,8 @@ func Run(ctx *common.Ctx) {
 	ctx.Meta.Rule = "per case: a random class DAG over <= 5 class names (0-3 direct superclasses, now and then one that is never defined), " +
 		"0-3 slots per class over 4 slot names with 0-2 initargs (usually named after the slot, so shared along the hierarchy), initforms at several " +
 		"levels (integers telling the defining class, or nil), reader/writer/accessor flags; the defclass forms evaluated in a random permutation " +
-		"(forward references); with probability 0.55 one class redefined (supers and/or slots changed); interleaved make-instance with a random " +
+		"(forward references); with probability 0.55 one class redefined (supers and/or slots changed; often the root of a chain, or with a new " +
+			"superclass that is defined only later); an initarg may sit on several slots of a form; interleaved make-instance with a random " +
 		"subset of initargs, slot-value/boundp/setf/makunbound, accessor calls, typep, class-of, defmethod on and calls of a user generic; " +
 		"distinct = distinct histories with a forward reference or a redefinition"
 	header := "From C12 Require Import Model Spec Corr.\n"
@@ -718,10 +791,11 @@ func Run(ctx *common.Ctx) {
 	replayOrderFinding(ctx)
 }
 
-// The classChanged finding depends on Go's map iteration order: the witness (a chain a <- b <- c, a redefined
-// under z) is run `attempts` times with fresh names.  On the unchanged code c is merged before b in half of the
-// runs and then misses z.  Some stale run = the known finding reproduced.  EVERY run stale (probability 2^-40
-// on the unchanged code) = redefinition no longer reaches the second level at all: reported as a violation.
+// The classChanged finding (fixed by repo_fixes/C12-2) depended on Go's map iteration order: the witness (a chain
+// a <- b <- c, a redefined under z) is run `attempts` times with fresh names.  On the unchanged code c was merged
+// before b in half of the runs and then missed z.  Some stale run = the defect reproduced (a regression now that the
+// finding is recorded as fixed).  EVERY run stale = redefinition no longer reaches the second level at all:
+// reported as a violation in its own right.
 func replayOrderFinding(ctx *common.Ctx) {
 	const id = "C12-redefinition-order-of-subclasses"
 	raw, has := ctx.Known[id]
